@@ -1841,6 +1841,20 @@ class IRGenerator:
 
         # Parse the route whitelist and populate any starting data types
         route_data_types = []
+        # Routes that the docs read here refer to: they are part of the API too
+        doc_routes = defaultdict(set)
+
+        def add_doc_refs(doc, namespace_name):
+            doc_types, routes_by_ns = parse_data_types_and_routes_from_doc_ref(
+                self.api, doc, namespace_name)
+            route_data_types.extend(doc_types)
+            for route_namespace_name, routes in routes_by_ns.items():
+                route_namespace = self.api.namespaces[route_namespace_name]
+                for route in routes:
+                    doc_routes[route_namespace_name].add(route)
+                    route_data_types.extend(
+                        route_namespace.get_route_io_data_types_for_route(route))
+
         for namespace_name, route_reprs in route_whitelist.items():
             # Error out if user supplied nonexistent namespace
             if namespace_name not in self.api.namespaces:
@@ -1849,8 +1863,7 @@ class IRGenerator:
 
             # Parse namespace doc refs and add them to the starting data types
             if namespace.doc is not None:
-                route_data_types.extend(
-                    parse_data_types_from_doc_ref(self.api, namespace.doc, namespace_name))
+                add_doc_refs(namespace.doc, namespace_name)
 
             # Parse user-specified routes and add them to the starting data types
             # Note that this may add duplicates, but that's okay, as the recursion
@@ -1866,8 +1879,7 @@ class IRGenerator:
                 route = namespace.routes_by_name[route_name].at_version[version]
                 route_data_types.extend(namespace.get_route_io_data_types_for_route(route))
                 if route.doc is not None:
-                    route_data_types.extend(
-                        parse_data_types_from_doc_ref(self.api, route.doc, namespace_name))
+                    add_doc_refs(route.doc, namespace_name)
 
         # Parse the datatype whitelist and populate any starting data types
         for namespace_name, datatype_names in self._routes['datatype_whitelist'].items():
@@ -1877,8 +1889,7 @@ class IRGenerator:
             # Parse namespace doc refs and add them to the starting data types
             namespace = self.api.namespaces[namespace_name]
             if namespace.doc is not None:
-                route_data_types.extend(
-                    parse_data_types_from_doc_ref(self.api, namespace.doc, namespace_name))
+                add_doc_refs(namespace.doc, namespace_name)
 
             for datatype_name in datatype_names:
                 if datatype_name not in self.api.namespaces[namespace_name].data_type_by_name:
@@ -1888,6 +1899,8 @@ class IRGenerator:
 
         # Recurse on dependencies
         output_types_by_ns, output_routes_by_ns = self._find_dependencies(route_data_types)
+        for namespace_name, routes in doc_routes.items():
+            output_routes_by_ns[namespace_name].update(routes)
 
         # Update the IR representation. This involves editing the data types and
         # routes for each namespace.
